@@ -70,6 +70,8 @@ def run(ids):
     base = os.path.join(HERE, 'seeded')
     out = {}
     for name in sorted(os.listdir(base)):
+        if not os.path.isdir(os.path.join(base, name)):
+            continue
         if ids and name not in ids and name.split('-')[0] not in ids:
             continue
         d = os.path.join(base, name)
